@@ -10,7 +10,8 @@ def gen(rng: random.Random, tier: str):
     for k in range(n):
         nu, ni = rng.randint(3, 9), rng.randint(3, 8)
         explicit = rng.random() < 0.6
-        rows = [[100 + u, 1000 + i, float(rng.choice([1, 2, 3, 4, 5]))] for u in range(nu) for i in range(ni) if rng.random() < rng.choice([0.4, 0.55, 0.7])]
+        UB, IB = rng.choice([(100, 1000), (100, 1000), (0, 1000), (0, 0)])          # zero-based identifiers are identifiers like any other
+        rows = [[UB + u, IB + i, float(rng.choice([1, 2, 3, 4, 5]))] for u in range(nu) for i in range(ni) if rng.random() < rng.choice([0.4, 0.55, 0.7])]
         if len({r[1] for r in rows}) < 2 or len({r[0] for r in rows}) < 3: continue
         kk = rng.randint(1, 4)
         yield {"algo": "item" if k % 2 == 0 else "user", "rows": rows, "explicit": explicit, "k": kk, "min_nbrs": rng.randint(1, min(kk, 3)),
